@@ -115,6 +115,8 @@ structure St (R : Type) where
 inductive Label
   | set (k : Key) (v : Ver)
   | del (k : Key)
+  /-- `PageDatabase.invalidate()`: something the postprocessor reads besides the pages changed (facets.toml) -/
+  | inv
   | cEnter (r : Nat) (isReq : Bool)
   | cJoin (r : Nat)
   | cClear (r : Nat)
@@ -162,6 +164,8 @@ thread is at that point) -/
 def step {R : Type} (m : Mode) (post : Store → R) (s : St R) : Label → Option (St R)
   | .set k v => some (mutate s k (storeSet s.store k v))
   | .del k => some (mutate s k (storeDel s.store k))
+  -- a new generation of the same pages: whatever was computed from an earlier generation is no longer current
+  | .inv => some { s with gen := s.gen + 1, hist := s.hist ++ [s.store] }
   | .cEnter r isReq =>
     if r = s.ops.length ∧ s.joiner = none then
       if trackedAlive s then
